@@ -1,1 +1,89 @@
-/-! C02 — property theorems (placeholder until the model exists). -/
+import EupsModel.Model.Setup
+/-! C02 — unsetup is the inverse of setup; a failing request leaves the environment as it found it.
+Model: `EupsModel/Model/Setup.lean` (shared with C01, C04). -/
+namespace EupsModel.C02
+open EupsModel EupsModel.Setup
+
+/-! ## clause 2: a failing request hands nothing to the shell -/
+
+/-- `eups.app.setup`: when `Eups.setup` does not succeed, the command list is `["false"]` or an exception
+(or, in the model only, out-of-fuel) leaves the function: no `export`, `unset` or function definition is emitted —
+for every database, request, direction, prior environment and fuel. -/
+theorem C02_failed_request_emits_nothing (db : Db) (fuel : Nat) (fwd : Bool) (r : Request) (e : Setup.Env)
+    (hfail : ∀ s, (if fwd then runSetup db fuel r e else runUnsetup db fuel r e) ≠ .ok s) :
+    appSetup db fuel fwd r e = .cmds [.false_] ∨ appSetup db fuel fwd r e = .raised ∨
+    appSetup db fuel fwd r e = .fuel := by
+  unfold appSetup
+  cases h : (if fwd then runSetup db fuel r e else runUnsetup db fuel r e) with
+  | ok s => exact absurd h (hfail s)
+  | notFound s => simp
+  | raised s => simp
+  | fuel => simp
+
+/-- … and inside a request: when a dependency fails (`setupOptional`, or any dependency while unwinding), the
+remaining actions of the table run from exactly the environment and aliases that were current before the attempt
+(`popStack("env")`); what the failed attempt did to `os.environ` and to the alias table is discarded. -/
+theorem C02_failed_dependency_restores_env (rec : Rec) (cfg : Cfg) (fwd : Bool) (depth : Nat) (vro : List VroEnt)
+    (d : Decl) (n : Name) (opt just : Bool) (ver : Option VerReq) (vexpr : Option VExpr) (rest : List Act)
+    (s s' : St) (hgo : cfg.maxDepth ≠ some depth) (hopt : fwd = false ∨ opt = true)
+    (hfail : rec fwd (depth + 1) just (if VroEnt.keep ∈ vro then VroEnt.keep :: vro else vro) n
+        (if fwd then ver else none) (if fwd then vexpr else none) s = .notFound s' ∨
+      rec fwd (depth + 1) just (if VroEnt.keep ∈ vro then VroEnt.keep :: vro else vro) n
+        (if fwd then ver else none) (if fwd then vexpr else none) s = .raised s') :
+    acts rec cfg fwd depth false vro d (.dep n opt just ver vexpr :: rest) s =
+      acts rec cfg fwd depth false vro d rest { s' with env := s.env, aliases := s.aliases, unaliased := s.unaliased } := by
+  have hcond : (fwd && !opt) = false := by rcases hopt with h | h <;> simp [h]
+  rcases hfail with h | h <;> simp [acts, hgo, h, hcond]
+
+/-- a failing *required* dependency aborts the request with the environment it had before the attempt -/
+theorem C02_failed_required_dependency_raises (rec : Rec) (cfg : Cfg) (depth : Nat) (vro : List VroEnt)
+    (d : Decl) (n : Name) (just : Bool) (ver : Option VerReq) (vexpr : Option VExpr) (rest : List Act)
+    (s s' : St) (hgo : cfg.maxDepth ≠ some depth)
+    (hfail : rec true (depth + 1) just (if VroEnt.keep ∈ vro then VroEnt.keep :: vro else vro) n ver vexpr s = .notFound s' ∨
+      rec true (depth + 1) just (if VroEnt.keep ∈ vro then VroEnt.keep :: vro else vro) n ver vexpr s = .raised s') :
+    acts rec cfg true depth false vro d (.dep n false just ver vexpr :: rest) s = .raised { s' with env := s.env, aliases := s.aliases, unaliased := s.unaliased } := by
+  rcases hfail with h | h <;> simp [acts, hgo, h]
+
+/-! ## clause 1 is false as stated: two witnesses (design limits of eups, findings D15a / D15b) -/
+
+def nA : Name := [97]
+def v1 : Ver := [49]
+def PATH : Str := [80]
+def V : Str := [86]
+def reqA : Request := ⟨nA, none, false, none, false, []⟩
+
+/-- `a 1`: `envSet(V, ${PRODUCT_DIR})`, `envPrepend(PATH, ${PRODUCT_DIR}/bin)` -/
+def dbA : Db :=
+  { decls := [⟨nA, v1, [47, 97], [(.always, .set V (.own [])), (.always, .prepend PATH (.own [47, 98]) false)]⟩],
+    tags := [(tagCurrent, nA, v1)] }
+
+/-- setup then unsetup, both successful -/
+def roundTrip (db : Db) (r : Request) (e0 : Setup.Env) : Option Setup.Env :=
+  match runSetup db 10 r e0 with
+  | .ok s1 => (match runUnsetup db 10 r s1.env with
+    | .ok s2 => some s2.env
+    | _ => none)
+  | _ => none
+
+/-- D15a: `V` was defined before; `envSet(V, …)` and its unsetup leave it unset -/
+def priorA : Setup.Env := { Setup.Env.empty with vars := [(V, .foreign [111, 108, 100])] }
+/-- D15b: `PATH` already held the element the table contributes -/
+def priorB : Setup.Env := { Setup.Env.empty with paths := [(PATH, [.foreign [47, 117], .own (nA, v1) [47, 98]])] }
+
+theorem C02_inverse_not_full_envSet :
+    ∃ e2, roundTrip dbA reqA priorA = some e2 ∧ ¬ e2.approx priorA := by
+  refine ⟨⟨[], [], [(PATH, [])], []⟩, by decide +kernel, ?_⟩
+  intro h
+  have := h.2.2.2 V
+  revert this
+  decide +kernel
+
+theorem C02_inverse_not_full_contained :
+    ∃ e2, roundTrip dbA reqA priorB = some e2 ∧ ¬ e2.approx priorB := by
+  refine ⟨⟨[], [], [(PATH, [.foreign [47, 117]])], []⟩, by decide +kernel, ?_⟩
+  intro h
+  have := h.2.2.1 PATH
+  revert this
+  decide +kernel
+
+end EupsModel.C02
